@@ -19,10 +19,25 @@ KA == <<97>>  KAA == <<65>>  KB == <<98>>  KSL == <<97, 47, 98>>  KTI == <<109, 
 \* ---- documents ----
 Leaves == {N1, N2, VNull, VTrue, S(<<120>>)}
 Doc1 == ArrsOver({N1, N2}, 2) \cup ObjsOver({N1, N2}, {KA, KAA, KB}, 2, TRUE)
+RepK(c, n) == [i \in 1..n |-> c]
+KLong == RepK(107, 70)                     \* a 70 byte key
+KHi1 == <<195, 132, 112>>   KHi2 == <<195, 150, 108>>   KHi3 == <<226, 130, 172>>      \* keys starting with bytes >= 0x80
+Wide(n) == VArr([i \in 1..n |-> IF i = n THEN N2 ELSE N1])
+\* ten members, keys with high first bytes among ASCII ones, two different member orders
+TenA == VObj(<< <<<<90, 105>>, N1>>, <<KHi1, N2>>, <<KA, N1>>, <<KHi3, N1>>, <<KB, N2>>, <<<<122>>, N1>>, <<KHi2, N1>>, <<<<77>>, N2>>, <<KAA, N1>>, <<<<48>>, N1>> >>)
+TenB == VObj(<< <<<<48>>, N1>>, <<KAA, N1>>, <<<<77>>, N2>>, <<KHi2, N1>>, <<<<122>>, N1>>, <<KB, N2>>, <<KHi3, N1>>, <<KA, N1>>, <<KHi1, N2>>, <<<<90, 105>>, N1>> >>)
+TenC == [TenA EXCEPT !.m[3].v = N2]
+\* the same ten members in other orders (stride permutations), and eleven / twelve members
+RemP(a0, m0) == a0 - m0 * (a0 \div m0)
+TenP(st, off) == [TenA EXCEPT !.m = [j \in 1..10 |-> TenA.m[RemP(j * st + off, 10) + 1]]]
+TenPerms == {TenP(st, off) : st \in {1, 3, 7, 9}, off \in {0, 3, 5}}
+Twelve == [TenA EXCEPT !.m = TenA.m \o << Mem(<<195, 169>>, N1), Mem(<<109>>, N2) >>]
+TwelveR == [Twelve EXCEPT !.m = [j \in 1..12 |-> Twelve.m[RemP(j * 5 + 2, 12) + 1]]]
 DocsApply == {
   VObj(<< <<KA, VArr(<<N1, N2>>)>>, <<KAA, N2>>, <<KSL, VObj(<< <<KTI, N1>> >>)>> >>),
   VArr(<< N1, VObj(<< <<KA, N1>>, <<KB, VArr(<<>>)>> >>), VArr(<<N2>>) >>),
   VObj(<< <<KB, N1>>, <<KA, N2>> >>), VArr(<<>>), VObj(<<>>), N1 }
+BigDocsApply == {Wide(1001), Wide(1200), VObj(<< <<KA, Wide(1001)>> >>), TenA}
 
 \* ---- pointers worth trying in a document ----
 PtrsOf(d) == {PointerTo(d, p) : p \in PathsOf(d)}
@@ -53,13 +68,24 @@ Almost(d) ==
     VArr(<<VObj(<< <<KOp, S(OpMove)>>, <<KPath, S(p)>>, <<KFrom, N1>> >>)>>), VArr(<<VObj(<< <<KOp, S(OpCopy)>>, <<KPath, S(p)>>, <<KFrom, VNull>> >>)>>),
     VArr(<<VObj(<< <<KOp, S(OpCopy)>>, <<KPath, S(p)>>, <<KFrom, VArr(<<>>)>> >>)>>), VArr(<<VObj(<< <<<<79, 80>>, S(OpAdd)>>, <<KPath, S(p)>>, <<KValue, N1>> >>)>>) }
 
-Patches(d) == {VArr(<<o>>) : o \in OpsFor(d)} \cup Almost(d) \cup {VArr(<<>>)}
+IsBigDoc(d) == d \in BigDocsApply
+\* for wide documents only a handful of operations: comparing / touching the whole wide container
+BigPatches(d) ==
+  LET root == IF d.t = "obj" /\ Member(d, KA) # 0 /\ d.m[Member(d, KA)].v.t = "arr" THEN <<47, 97>> ELSE <<>>
+      w == ValueAt(d, Resolve(d, root))
+      n == Len(w.m) IN
+  {VArr(<<OpObjV(OpTest, root, w)>>), VArr(<<OpObjV(OpTest, root, [w EXCEPT !.m[n].v = N1])>>), VArr(<<OpObjV(OpTest, <<>>, d)>>),
+   VArr(<<OpObjV(OpTest, root, w), OpObjV(OpReplace, root \o <<47>> \o (IF w.t = "arr" THEN <<48>> ELSE KA), N2)>>),
+   VArr(<<OpObj(OpRemove, root \o <<47>> \o (IF w.t = "arr" THEN DecText(n - 1) ELSE KHi1)), OpObjV(OpTest, root, RemoveMember(w, IF w.t = "arr" THEN n ELSE Member(w, KHi1)))>>)}
+PatchesSmall(d) == {VArr(<<o>>) : o \in OpsFor(d)} \cup Almost(d) \cup {VArr(<<>>)}
                \cup (IF Tier # "deep" THEN {} ELSE
                      LET E == {OpObjV(OpAdd, p, N2) : p \in Ptrs(d)} \cup {OpObj(OpRemove, p) : p \in Ptrs(d)} \cup {OpObjF(OpMove, p, f) : p \in PtrsOf(d), f \in PtrsOf(d)}
                      IN {VArr(<<o1, o2>>) : o1 \in E, o2 \in E})
                \cup (IF Tier = "quick" THEN {} ELSE
                      {VArr(<<o1, o2>>) : o1 \in {OpObjV(OpTest, p, ValueAt(d, Resolve(d, p))) : p \in PtrsOf(d)} \cup {OpObj(OpRemove, p) : p \in PtrsOf(d) \ {<<>>}},
                                          o2 \in {OpObjV(OpAdd, p, N2) : p \in Ptrs(d)} \cup {OpObj(OpRemove, p) : p \in PtrsOf(d)}})
+
+Patches(d) == IF IsBigDoc(d) THEN BigPatches(d) ELSE PatchesSmall(d)
 
 \* ---- merge ----
 MVals0 == {N1, VNull, S(<<120>>), VArr(<<N1>>)}
@@ -78,12 +104,14 @@ PairUniverse == IF Tier = "quick" THEN PLeaf \cup ArrsOver({N1, N2}, 2) \cup Obj
                      \cup ArrsOver({N1} \cup ObjsOver({N1, N2}, {KA, KAA}, 1, TRUE), 2)
                      \cup ObjsOver({N1} \cup ObjsOver({N1, N2}, {KA, KAA}, 1, TRUE) \cup ArrsOver({N1}, 1), {KA, KB}, 2, TRUE)
                      \cup {VObj(<< <<KB, N1>>, <<KA, N2>>, <<KAA, N1>> >>), VObj(<< <<KA, N1>>, <<KTI, N2>>, <<KB, N1>> >>)}
+                     \cup {TenA, TenB, TenC, Twelve, TwelveR} \cup TenPerms \cup ObjsOver({N1, N2}, {KA, KLong}, 2, TRUE)
+                     \cup {VObj(<< <<KA, N1>>, <<KLong, N1>>, <<KB, N2>> >>), VObj(<< <<KLong \o <<47, 126>>, VObj(<< <<KA, N1>> >>)>>, <<KA, N2>> >>), Wide(12), Wide(40)}
                      \cup (IF Tier # "deep" THEN {} ELSE
                            ObjsOver({N1, N2}, {KA, KAA, KB}, 3, TRUE) \cup ArrsOver({N1, N2, VNull}, 3)
                            \cup ObjsOver({N1} \cup ObjsOver({N1, N2} \cup ObjsOver({N1, N2}, {KA, KAA}, 1, TRUE), {KA, KAA}, 1, TRUE), {KA, KSL}, 2, TRUE))
 
 Init == /\ phase = 0 /\ b = VNull
-        /\ a \in (IF Mode = "apply" THEN DocsApply \cup (IF Tier = "quick" THEN {} ELSE Doc1) ELSE IF Mode = "merge" THEN MergeUniverse ELSE PairUniverse)
+        /\ a \in (IF Mode = "apply" THEN DocsApply \cup (IF Tier = "quick" THEN {} ELSE Doc1 \cup BigDocsApply) ELSE IF Mode = "merge" THEN MergeUniverse ELSE PairUniverse)
 
 Step ==
   CASE Mode = "apply" ->
